@@ -96,6 +96,10 @@ pub enum Case {
         /// replay of a known finding: do not exclude the known class by construction
         #[serde(default)]
         keep_known: bool,
+        /// with allowlist roots: `--no-recursive-allowlist` (what the roots mention is not
+        /// generated and its facts are not computed)
+        #[serde(default)]
+        no_recursive: bool,
     },
 }
 
@@ -669,7 +673,7 @@ impl C07 {
 
     #[allow(clippy::too_many_arguments)]
     fn eval_dag(&self, case: &Case, env: &Env, out: &mut Outcome) {
-        let Case::Dag { graph, order_prios, seeds, opaque, blocklist, allow_roots, derive_all, keep_known } = case else { unreachable!() };
+        let Case::Dag { graph, order_prios, seeds, opaque, blocklist, allow_roots, derive_all, keep_known, no_recursive } = case else { unreachable!() };
         let mut g = graph.clone();
         g.normalise();
         let n = g.nodes.len();
@@ -718,6 +722,10 @@ impl C07 {
         for i in allow_roots.iter().filter(|i| **i < n) {
             flags.push("--allowlist-type".into());
             flags.push(nname(*i));
+        }
+        if *no_recursive && allow_roots.iter().any(|i| *i < n) {
+            flags.push("--no-recursive-allowlist".into());
+            out.class("dag:no-recursive-allowlist");
         }
         let clang_args: Vec<String> = if g.cpp { vec!["-x".into(), "c++".into(), "-std=c++14".into()] } else { vec!["-x".into(), "c".into()] };
         let depth = g.taint_depth();
@@ -889,7 +897,7 @@ pub fn chain_grid() -> Vec<Case> {
                             nodes.push(node(NodeKind::Class, vec![FieldKind::ViaTypedef(t), FieldKind::Int], vec![], false, false));
                         }
                     }
-                    v.push(Case::Dag { graph: Graph { nodes, cpp: true }, order_prios: vec![], seeds: vec![1], opaque: vec![], blocklist: vec![], allow_roots: vec![], derive_all: true, keep_known: false });
+                    v.push(Case::Dag { graph: Graph { nodes, cpp: true }, order_prios: vec![], seeds: vec![1], opaque: vec![], blocklist: vec![], allow_roots: vec![], derive_all: true, keep_known: false, no_recursive: false });
                 }
             }
         }
@@ -918,10 +926,11 @@ impl Property for C07 {
             proptest::collection::vec(proptest::collection::vec(0u16..8, 9), 0..4),
             proptest::collection::vec(0usize..9, 0..2),
             proptest::collection::vec(0usize..9, 0..2),
-            prop_oneof![3 => Just(vec![]), 1 => proptest::collection::vec(0usize..9, 1..3)],
+            prop_oneof![3 => Just(vec![]), 1 => proptest::collection::vec(0usize..9, 1..3), 1 => proptest::collection::vec(0usize..9, 2..6)],
             proptest::bool::weighted(0.6),
+            proptest::bool::weighted(0.5),
         )
-            .prop_map(move |(graph, order_prios, opaque, blocklist, allow_roots, derive_all)| Case::Dag {
+            .prop_map(move |(graph, order_prios, opaque, blocklist, allow_roots, derive_all, no_recursive)| Case::Dag {
                 graph,
                 order_prios,
                 seeds: vec![1, 2],
@@ -930,6 +939,7 @@ impl Property for C07 {
                 allow_roots,
                 derive_all,
                 keep_known: false,
+                no_recursive,
             })
             .boxed()
     }
